@@ -480,6 +480,25 @@ func (r *rw) isMap(e ast.Expr) bool {
 	return ok
 }
 
+// isSlice: e has a slice type (named or not); strings and arrays are not hooked
+func (r *rw) isSlice(e ast.Expr) bool {
+	t := r.info.TypeOf(e)
+	if t == nil {
+		return false
+	}
+	_, ok := t.Underlying().(*types.Slice)
+	return ok
+}
+
+func (r *rw) isString(e ast.Expr) bool {
+	t := r.info.TypeOf(e)
+	if t == nil {
+		return false
+	}
+	b, ok := t.Underlying().(*types.Basic)
+	return ok && b.Info()&types.IsString != 0
+}
+
 func (r *rw) isChan(e ast.Expr) bool {
 	t := r.info.TypeOf(e)
 	if t == nil {
@@ -799,6 +818,34 @@ func (r *rw) rangeStmt(x *ast.RangeStmt, label string) ast.Stmt {
 		if x.Value != nil && x.Tok == token.ASSIGN {
 			x.Value = r.lhs(x.Value)
 		}
+		isBlankE := func(e ast.Expr) bool {
+			if e == nil {
+				return true
+			}
+			i, ok := e.(*ast.Ident)
+			return ok && i.Name == "_"
+		}
+		if r.isSlice(x.X) && !noAccess && !r.noHook && x.Tok == token.DEFINE && !isBlankE(x.Value) {
+			// for i, v := range X  ->  s := X; for i, v := range s { vsched.REr(s, i, site); ... }
+			site := r.site(x.X, false)
+			sv := r.tmp()
+			xe := r.expr(x.X)
+			r.blockStmt(x.Body)
+			if isBlankE(x.Key) {
+				x.Key = id(r.tmp())
+			}
+			kid := x.Key.(*ast.Ident)
+			x.X = id(sv)
+			x.Body.List = append([]ast.Stmt{&ast.ExprStmt{X: r.vs("REr", id(sv), id(kid.Name), site)}}, x.Body.List...)
+			var loop ast.Stmt = x
+			if label != "" {
+				loop = &ast.LabeledStmt{Label: id(label), Stmt: x}
+			}
+			return &ast.BlockStmt{List: []ast.Stmt{
+				&ast.AssignStmt{Lhs: []ast.Expr{id(sv)}, Tok: token.DEFINE, Rhs: []ast.Expr{xe}},
+				loop,
+			}}
+		}
 		x.X = r.expr(x.X)
 		r.blockStmt(x.Body)
 		if label != "" {
@@ -972,6 +1019,9 @@ func (r *rw) writeHook(l ast.Expr) ast.Stmt {
 		if r.isMap(x.X) && !r.hasRealCall(x.X) {
 			return &ast.ExprStmt{X: r.vs("WM", cloneExpr(x.X), r.site(x, true))}
 		}
+		if r.isSlice(x.X) && !r.hasRealCall(x.X) && !r.hasRealCall(x.Index) && pureExpr(x.X) && pureExpr(x.Index) {
+			return &ast.ExprStmt{X: r.vs("WE", cloneExpr(x.X), cloneExpr(x.Index), r.site(x, true))}
+		}
 	}
 	return nil
 }
@@ -992,8 +1042,34 @@ func cloneExpr(e ast.Expr) ast.Expr {
 		return &ast.StarExpr{X: cloneExpr(x.X)}
 	case *ast.BasicLit:
 		return &ast.BasicLit{Kind: x.Kind, Value: x.Value}
+	case *ast.BinaryExpr:
+		return &ast.BinaryExpr{X: cloneExpr(x.X), Op: x.Op, Y: cloneExpr(x.Y)}
+	case *ast.UnaryExpr:
+		return &ast.UnaryExpr{Op: x.Op, X: cloneExpr(x.X)}
 	}
 	return e
+}
+
+// pureExpr: built only from identifiers, selectors, indexes, literals, arithmetic and len/cap - can be
+// evaluated a second time (in a hook) without effect, and cloneExpr copies it completely.
+func pureExpr(e ast.Expr) bool {
+	switch x := e.(type) {
+	case *ast.Ident, *ast.BasicLit:
+		return true
+	case *ast.SelectorExpr:
+		return pureExpr(x.X)
+	case *ast.IndexExpr:
+		return pureExpr(x.X) && pureExpr(x.Index)
+	case *ast.ParenExpr:
+		return pureExpr(x.X)
+	case *ast.StarExpr:
+		return pureExpr(x.X)
+	case *ast.BinaryExpr:
+		return pureExpr(x.X) && pureExpr(x.Y)
+	case *ast.UnaryExpr:
+		return x.Op != token.ARROW && x.Op != token.AND && pureExpr(x.X)
+	}
+	return false
 }
 
 // lhs rewrites the operand of a store: the outermost location is not wrapped, everything read on
@@ -1087,6 +1163,10 @@ func (r *rw) expr(e ast.Expr) ast.Expr {
 		if tv, ok := r.info.Types[x.X]; ok && tv.IsType() {
 			return x // generic instantiation
 		}
+		if r.isSlice(x.X) && !noAccess && !r.noHook {
+			site := r.site(x, false)
+			return r.vs("RE", r.expr(x.X), r.expr(x.Index), site)
+		}
 		x.X = r.base(x.X)
 		x.Index = r.expr(x.Index)
 		return x
@@ -1134,6 +1214,21 @@ func (r *rw) expr(e ast.Expr) ast.Expr {
 					if r.isMap(x.Args[0]) && !noAccess {
 						site := r.site(x.Args[0], false)
 						return r.vs("LenM", r.expr(x.Args[0]), site)
+					}
+				case "append":
+					if len(x.Args) >= 2 && r.isSlice(x.Args[0]) && !noAccess && !r.noHook && !(x.Ellipsis.IsValid() && r.isString(x.Args[1])) {
+						site := r.site(x.Args[0], true)
+						r.exprs(x.Args)
+						na := append([]ast.Expr{x.Args[0], site}, x.Args[1:]...)
+						c := r.vs("Append", na...)
+						c.Ellipsis = x.Ellipsis
+						return c
+					}
+				case "copy":
+					if len(x.Args) == 2 && r.isSlice(x.Args[0]) && r.isSlice(x.Args[1]) && !noAccess && !r.noHook {
+						site := r.site(x.Args[0], true)
+						r.exprs(x.Args)
+						return r.vs("Copy", x.Args[0], x.Args[1], site)
 					}
 				case "new", "make":
 					for i := 1; i < len(x.Args); i++ {
